@@ -94,6 +94,15 @@ def run(tier, seed):
                 cases.append({"arch": arch, "stmts": [("segment", False)] + pre + sts + [("label", "after")],
                               "src": '@segment "ADDR"\n' + pre_src + line + "\nafter:\n", "note": f"{name}:{ln - k}"})
                 hist[name] = hist.get(name, 0) + 1
+    # large @incbin files (several read blocks) ending around the top of memory
+    for arch in ("6502",):
+        for size in (4095, 4096, 4097, 8191, 8193, 12289):
+            blob = bytes((7 * i + 3) % 251 for i in range(size))
+            for d in (-1, 0, 1, 2):
+                start = TOP - size + d
+                cases.append({"arch": arch, "stmts": [("org", ("num", start)), ("incbin", blob), ("label", "after")],
+                              "src": f'@org ${start:x}\n@incbin "big.bin"\nafter:\n', "files": {"/big.bin": blob}, "note": f"bigincbin:{size}:{d}"})
+                hist["bigincbin"] = hist.get("bigincbin", 0) + 1
     # random programs approaching the top of memory
     for i in range(300 if tier == "quick" else 5000):
         arch = rng.choice(["6502", "z80", "sm83"])
